@@ -27,10 +27,17 @@
   (`C20_inv_preserved`: the new tree is structurally valid in the sense of C04).
 
   Not proved here: the parse route (serialise, then parse: C01 / C02 with the tokenizer contract;
-  checked on the implementation by the `ffixed` suite), and construction programs other than the
-  three given orders.
+  checked on the implementation by the `ffixed` suite).
+
+  ANY construction order (second half of the file): `Model/FanyorderSpec.lean` defines construction
+  programs (steps `create`, `append`, `prepend`, `insertAfter`, `insertBefore`, `anyAppend`,
+  `setAttribute`, `setNamespace`; nodes named by the index of the `create` step that made them)
+  with two interpreters, `Prog.runImpl` (the forest model's functions) and `Prog.runSpec` (the
+  ordered-tree specification of C05: cut, graft, merge adjacent text; entries replaced in place or
+  added at the end of their block).
 -/
 import XotModel.Lemmas.FfixedValid
+import XotModel.Lemmas.FanyorderMain
 
 namespace XotModel.Props
 open XotModel
@@ -149,5 +156,226 @@ example :
     ({ roots := [.node 0 (.element 2) [.node 1 (.text ['t']) []], .node 2 (.comment []) []], next := 3 } : Forest).inv = true ∧
     ({ before := [.comment ['a'], .pi 17 none], documentElement := { name := 2, prefixes := [(2, 3), (0, 2)], attributes := [(3, ['v']), (4, [])], children := [.text ['x'], .element 3 [(2, 2)] [(3, ['w'])] [.comment [], .text ['y']], .text ['z']] }, after := [.pi 17 (some ['q']), .comment ['b']] } : FDocument).wf true = true := by
   decide
+
+/-! ## Every construction order
+
+  `Prog.State` = store + the nodes created so far (`env`; a program started by `runImplF` /
+  `runSpecF` starts with none).  Hypotheses on the start store: the C04 invariant `Forest.Inv`, and
+  `Prog.FlagsOk f`: text consolidation has never been switched off, or it is off (in both cases the
+  store holds no adjacent text nodes while consolidation is on — the scope of the C05 theorems;
+  programs do not change the setting).  No hypothesis on the program in the direction
+  specification ⇒ implementation.  In the direction implementation ⇒ specification,
+  `Prog.inScope s P`: no step is an `any_append` of an attribute / namespace node that is still
+  attached to an element (xot then moves the entry between two elements; the specification only
+  attaches parentless entry nodes and calls the step ill-formed).
+
+  How it is proved (`Lemmas/Fanyorder*.lean`): per call, C05 (`append_spec` … : a successful move IS
+  `specMove`, handle for handle) and C11 (node-map insertion); the invariant along the run is
+  obtained on the SPECIFICATION side (`specMove_inv`: cut, graft and merge keep every child list
+  ordered, keys unique, members allowed, handles distinct, and the two touched lists free of
+  adjacent text), because C04's lemma family (`Lemmas/Finv*`) shares some twenty lemma names with
+  C05's (`Lemmas/Fspec*`) and cannot be imported next to it; for the same reason "after the
+  argument checks no late `NodeError`" (part of C06) is re-derived (`moveImpl_ok`). -/
+
+open XotModel.Prog
+
+/-- **Refinement (any order).**  A program the ordered-tree specification accepts is carried out by
+    the implementation without a refusal, and the implementation's final state IS the
+    specification's: same trees, same node names (handles), same created nodes. -/
+theorem C20_any_order (s s' : State) (P : Program) (inv : s.forest.Inv) (hfl : FlagsOk s.forest)
+    (h : runSpec s P = some s') : runImpl s P = (s', .ok) :=
+  run_spec_impl P s s' inv hfl h
+
+/-- Conversely, a program every step of which the implementation answers `ok` is well-formed for the
+    specification (and then `C20_any_order` applies). -/
+theorem C20_any_order_conv (s : State) (P : Program) (inv : s.forest.Inv) (hfl : FlagsOk s.forest)
+    (hsc : inScope s P = true) (hok : (runImpl s P).2 = .ok) : runSpec s P = some (runImpl s P).1 :=
+  (run_refine_inv P s inv hfl hsc hok).1
+
+/-- The content form: names forgotten — node kinds and order, element names, attributes and
+    namespace declarations in order, merged text. -/
+theorem C20_any_order_content (f g : Forest) (P : Program) (inv : f.Inv) (hfl : FlagsOk f)
+    (h : runSpecF f P = some g) : (runImplF f P).2 = .ok ∧ (runImplF f P).1.content = g.content := by
+  unfold runSpecF at h
+  cases hs : runSpec { forest := f } P with
+  | none => rw [hs] at h; cases h
+  | some s' =>
+    rw [hs] at h
+    simp only [Option.map_some, Option.some.injEq] at h
+    have := run_spec_impl P _ s' inv hfl hs
+    unfold runImplF
+    rw [this, ← h]
+    exact ⟨rfl, rfl⟩
+
+/-- **Any two orders.**  Two programs that the specification takes to stores with the same content
+    are both carried out by the implementation, and taken to stores with the same content — whatever
+    the order of their steps, however the text was cut into pieces, whenever the attributes and
+    namespaces were set. -/
+theorem C20_orders_agree (f g1 g2 : Forest) (P1 P2 : Program) (inv : f.Inv) (hfl : FlagsOk f)
+    (h1 : runSpecF f P1 = some g1) (h2 : runSpecF f P2 = some g2) (hc : g1.content = g2.content) :
+    (runImplF f P1).2 = .ok ∧ (runImplF f P2).2 = .ok ∧
+      (runImplF f P1).1.content = (runImplF f P2).1.content := by
+  obtain ⟨a1, a2⟩ := C20_any_order_content f g1 P1 inv hfl h1
+  obtain ⟨b1, b2⟩ := C20_any_order_content f g2 P2 inv hfl h2
+  exact ⟨a1, b1, by rw [a2, b2, hc]⟩
+
+/-- The same for the subtrees of two designated nodes (e.g. the two document nodes), and any
+    observation `obs` of a tree: equal in the specification's final states ⇒ equal in the
+    implementation's.  With `obs` the identity: the trees are `deep_equal` and carry the same
+    declarations; with `obs` the serialiser (`toXmlString env · []`, a function of the erased tree
+    `HTree.erase`, C16): they serialise identically. -/
+theorem C20_orders_agree_at {α : Type} (obs : Tree → α) (f : Forest) (P1 P2 : Program) (r1 r2 : Nat)
+    (inv : f.Inv) (hfl : FlagsOk f) (s1 s2 : State)
+    (h1 : runSpec { forest := f } P1 = some s1) (h2 : runSpec { forest := f } P2 = some s2)
+    (a b : Nat) (ha : s1.env[r1]? = some a) (hb : s2.env[r2]? = some b)
+    (heq : s1.forest.treeAt a = s2.forest.treeAt b) :
+    (runImpl { forest := f } P1).2 = .ok ∧ (runImpl { forest := f } P2).2 = .ok ∧
+    (runImpl { forest := f } P1).1.env[r1]? = some a ∧ (runImpl { forest := f } P2).1.env[r2]? = some b ∧
+      ((runImpl { forest := f } P1).1.forest.treeAt a).map obs =
+        ((runImpl { forest := f } P2).1.forest.treeAt b).map obs := by
+  rw [run_spec_impl P1 _ s1 inv hfl h1, run_spec_impl P2 _ s2 inv hfl h2]
+  exact ⟨rfl, rfl, ha, hb, by rw [heq]⟩
+
+/-- **Closed form.**  `Prog.Constructs f P root d` says, with the specification only: every step of
+    `P` is well-formed and at the end the node created by the `root`-th `create` step carries
+    `treeOf d` (unused nodes and merged-away text pieces are of no concern).  Then the
+    implementation answers every step `ok`, that node carries `treeOf d`, and the store still
+    satisfies the invariant: every construction of `d`, in ANY order, with the text supplied in ANY
+    split into pieces, yields `treeOf d`.  (`C20_topdown`, `C20_bottomup`, `C20_rtl` are three
+    particular orders.) -/
+theorem C20_every_construction (f : Forest) (P : Program) (root : Nat) (d : FDocument)
+    (hc : Constructs f P root d) (inv : f.Inv) (hfl : FlagsOk f) :
+    (runImpl { forest := f } P).2 = .ok ∧ (runImpl { forest := f } P).1.forest.Inv ∧
+    ∃ h, (runImpl { forest := f } P).1.env[root]? = some h ∧
+      (runImpl { forest := f } P).1.forest.treeAt h = some (treeOf d) := by
+  obtain ⟨s', hs, h, he, ht⟩ := hc
+  rw [run_spec_impl P _ s' inv hfl hs]
+  exact ⟨rfl, (runSpec_inv P _ s' inv hfl hs).1, h, he, ht⟩
+
+/-- … and when the specification's final store is the store before plus exactly `treeOf d`
+    (nothing left over), so is the implementation's. -/
+theorem C20_every_clean_construction (f : Forest) (P : Program) (d : FDocument)
+    (hc : ConstructsClean f P d) (inv : f.Inv) (hfl : FlagsOk f) :
+    (runImplF f P).2 = .ok ∧ (runImplF f P).1.content = f.content ++ [treeOf d] := by
+  obtain ⟨s', hs, hcont⟩ := hc
+  have := C20_any_order_content f s'.forest P inv hfl (by unfold runSpecF; rw [hs]; rfl)
+  exact ⟨this.1, by rw [this.2, hcont]⟩
+
+/-- The specification preserves the C04 invariant (its moves: `specMove_inv`), hence so does every
+    successful implementation run: the invariant holds in every state passed through. -/
+theorem C20_spec_preserves_inv (s s' : State) (P : Program) (inv : s.forest.Inv) (hfl : FlagsOk s.forest)
+    (h : runSpec s P = some s') : s'.forest.Inv ∧ FlagsOk s'.forest :=
+  runSpec_inv P s s' inv hfl h
+
+theorem C20_inv_along (s : State) (P : Program) (inv : s.forest.Inv) (hfl : FlagsOk s.forest)
+    (hsc : inScope s P = true) : InvAlong s P :=
+  invAlong_of_inv P s inv hfl hsc
+
+/-! ### The refusal side -/
+
+/-- The specification's well-formedness test of a move IS xot's argument check
+    (`add_structure_check`, for `insert_*` also `sibling_reference_check`), as a Boolean. -/
+theorem C20_moveOk_is_the_check (f : Forest) (d : Dest) (n : Nat) :
+    moveOk d n f = implCheck f d n := moveOk_eq f d n
+
+/-- A move the specification calls ill-formed is refused by the implementation with
+    `InvalidOperation` and an unchanged store … -/
+theorem C20_illformed_move_refused (f : Forest) (d : Dest) (n : Nat) (h : moveOk d n f = false) :
+    moveImpl f d n = (f, .err .invalidOperation) :=
+  moveImpl_refused (by rw [← moveOk_eq]; exact h)
+
+/-- … and a well-formed move is answered `ok` (after the argument checks nothing goes wrong: no
+    late `NodeError` from indextree, no panic) and is the specification's move. -/
+theorem C20_wellformed_move_ok (f : Forest) (d : Dest) (n : Nat) (inv : f.Inv) (hfl : FlagsOk f)
+    (h : moveOk d n f = true) :
+    moveImpl f d n = (Spec.specMove (Keep.resident n) d n f, .ok) := by
+  have norm := normal_of_flags inv hfl
+  have hok := moveImpl_ok inv norm (by rw [← moveOk_eq]; exact h)
+  rw [← moveImpl_spec inv norm hok, ← hok]
+
+/-- **Refusals are exact**: the first step the implementation does not answer `ok` is the first step
+    the specification calls ill-formed (both `none` for a program carried out completely). -/
+theorem C20_refusal_exact (s : State) (P : Program) (inv : s.forest.Inv) (hfl : FlagsOk s.forest)
+    (hsc : inScope s P = true) : firstRefused s P = firstIllFormed s P :=
+  firstRefused_eq P s inv hfl hsc
+
+/-! ### Non-vacuity: `<a c="v">x<b/>yz</a>` by two different programs
+
+  `progA`: top-down, left to right, the attribute set first, `yz` delivered as `y` then `z`.
+  `progB`: the pieces first (`z` before `y`), the element `a` created third, `y` inserted between
+  `<b/>` and `z` (it merges into `z`: the LATER node survives), `x` prepended last, the attribute
+  attached as a node at the very end. -/
+
+def progA : Program :=
+  [.create (.element 2), .setAttribute 0 4 ['v'], .create (.text ['x']), .append 0 1,
+   .create (.element 3), .append 0 2, .create (.text ['y']), .append 0 3, .create (.text ['z']), .append 0 4]
+
+def progB : Program :=
+  [.create (.text ['z']), .create (.element 3), .create (.element 2), .append 2 1,
+   .create (.text ['y']), .append 2 0, .insertAfter 1 3, .create (.text ['x']), .prepend 2 4,
+   .create (.attribute 4 ['v']), .anyAppend 2 5]
+
+theorem C20_init_inv : Forest.init.Inv ∧ FlagsOk Forest.init :=
+  ⟨(Forest.inv_iff _).1 (by decide), Or.inl rfl⟩
+
+/-- Both programs are accepted by the specification from the empty store and end in different
+    states (other names survive) with the same content `<a c="v">x<b/>yz</a>`; the implementation
+    model, evaluated, does what the theorems say; both are in scope. -/
+example :
+    (runSpecF Forest.init progA).map Forest.content =
+      some [.node (.element 2) [.node (.attribute 4 ['v']) [], .node (.text ['x']) [], .node (.element 3) [],
+        .node (.text ['y', 'z']) []]] ∧
+    (runSpecF Forest.init progB).map Forest.content = (runSpecF Forest.init progA).map Forest.content ∧
+    runSpecF Forest.init progB ≠ runSpecF Forest.init progA ∧
+    (runImplF Forest.init progA).2 = .ok ∧ (runImplF Forest.init progB).2 = .ok ∧
+    (runImplF Forest.init progA).1.content = (runImplF Forest.init progB).1.content ∧
+    inScope { forest := Forest.init } progA = true ∧ inScope { forest := Forest.init } progB = true := by
+  decide +kernel
+
+/-- The abstract document `<!--l--><a c="v">x<b/>yz</a>` and a construction of it that creates the
+    document node LAST, delivers `yz` in two pieces and sets the attribute after the children. -/
+def docC : FDocument :=
+  { before := [.comment ['l']],
+    documentElement := { name := 2, attributes := [(4, ['v'])], children := [.text ['x'], .element 3 [] [] [], .text ['y', 'z']] } }
+
+def progC : Program :=
+  [.create (.text ['z']), .create (.element 3), .create (.element 2), .append 2 1,
+   .create (.text ['y']), .append 2 0, .insertAfter 1 3, .create (.text ['x']), .prepend 2 4,
+   .setAttribute 2 4 ['v'], .create (.comment ['l']), .create .document, .append 6 2, .insertBefore 2 5]
+
+theorem C20_progC_constructs : Constructs Forest.init progC 6 docC ∧ ConstructsClean Forest.init progC docC := by
+  have h : ∃ s', runSpec { forest := Forest.init } progC = some s' := by
+    cases hs : runSpec { forest := Forest.init } progC with
+    | some s' => exact ⟨s', rfl⟩
+    | none =>
+      have : (runSpec { forest := Forest.init } progC).isSome = true := by decide +kernel
+      rw [hs] at this; cases this
+  obtain ⟨s', hs⟩ := h
+  have h2 : (runSpec { forest := Forest.init } progC).map
+      (fun s' => ((s'.env[6]?).bind s'.forest.treeAt, s'.forest.content)) =
+      some (some (treeOf docC), Forest.init.content ++ [treeOf docC]) := by decide +kernel
+  rw [hs] at h2
+  simp only [Option.map_some, Option.some.injEq, Prod.mk.injEq] at h2
+  obtain ⟨h3, h4⟩ := h2
+  refine ⟨⟨s', hs, ?_⟩, ⟨s', hs, h4⟩⟩
+  cases he : s'.env[6]? with
+  | none => rw [he] at h3; cases h3
+  | some h => rw [he] at h3; exact ⟨h, rfl, h3⟩
+
+/-- `C20_every_construction` applied: the model's run of `progC` is `ok` and its 7th created node
+    carries `treeOf docC`. -/
+example : (runImpl { forest := Forest.init } progC).2 = .ok ∧
+    ∃ h, (runImpl { forest := Forest.init } progC).1.env[6]? = some h ∧
+      (runImpl { forest := Forest.init } progC).1.forest.treeAt h = some (treeOf docC) := by
+  obtain ⟨a, _, b⟩ := C20_every_construction Forest.init progC 6 docC C20_progC_constructs.1 C20_init_inv.1 C20_init_inv.2
+  exact ⟨a, b⟩
+
+/-- A program the specification rejects (an element appended to itself), refused by the model at
+    the same step. -/
+example : runSpec { forest := Forest.init } [.create (.element 2), .append 0 0] = none ∧
+    (runImpl { forest := Forest.init } [.create (.element 2), .append 0 0]).2 = .err .invalidOperation ∧
+    firstRefused { forest := Forest.init } [.create (.element 2), .append 0 0] = some 1 ∧
+    firstIllFormed { forest := Forest.init } [.create (.element 2), .append 0 0] = some 1 := by
+  decide +kernel
 
 end XotModel.Props
